@@ -1,3 +1,70 @@
-(** C33: the model is coq/Lib/WireDns.v (shared with C32); the termination / totality development
-    is coq/Lib/WireDnsTotal.v.  Nothing else is needed here. *)
+(** C33: the decoders are coq/Lib/WireDns.v (shared with C32); their termination / totality
+    development is coq/Lib/WireDnsTotal.v.  This file adds the TCP framing of DNSProtocol
+    (dataReceived: 2-byte big-endian length prefix, then the message), in the REPAIRED form of
+    fixes/C33-tcp-length-prefix-split.patch: when fewer than two bytes of the prefix have arrived the
+    loop stops and waits (the pinned code went on to compare with length None -> TypeError).
+    No proofs here. *)
+From Coq Require Import List NArith ZArith Bool.
 From TwLib Require Export PyInt WireIter WireDns.
+Import ListNotations.
+Open Scope N_scope.
+
+Section Framer.
+(** [bad frame] = Some e when Message.fromStr(frame) raises e (it is not caught in dataReceived) *)
+Variable bad : list N -> option pyexn.
+
+Inductive fstep :=
+| FStop (len : option N) (buf : list N)      (* wait for more data, in this state *)
+| FErr (e : pyexn)
+| FDeliver (frame : list N) (buf : list N).  (* a message was handed on; length is None again *)
+
+(** one pass of `while self.buffer:` *)
+Definition fstep_of (len : option N) (buf : list N) : fstep :=
+  match buf with
+  | [] => FStop len []
+  | _ :: _ =>
+    let hdr := match len with
+               | Some n => Some (n, buf)
+               | None => if blen buf <? 2 then None else Some (from_be (takeN 2 buf), dropN 2 buf)
+               end in
+    match hdr with
+    | None => FStop None buf
+    | Some (n, b1) =>
+        if n <=? blen b1 then
+          match bad (takeN n b1) with
+          | Some e => FErr e
+          | None => FDeliver (takeN n b1) (dropN n b1)
+          end
+        else FStop (Some n) b1
+    end
+  end.
+
+Record fstate := mkF { f_len : option N; f_buf : list N; f_outs : list (list N); f_err : option pyexn; f_fuel_ok : bool }.
+
+Fixpoint frun (fuel : nat) (len : option N) (buf : list N) (outs : list (list N)) : fstate :=
+  match fuel with
+  | O => mkF len buf outs None false
+  | S f =>
+    match fstep_of len buf with
+    | FStop l b => mkF l b outs None true
+    | FErr e => mkF None [] outs (Some e) true      (* the exception leaves dataReceived: the connection is gone *)
+    | FDeliver fr b => frun f None b (outs ++ [fr])
+    end
+  end.
+
+Definition ffuel (buf : list N) : nat := S (S (2 * length buf)).
+
+(** dataReceived(chunk); after an exception the connection is gone *)
+Definition ffeed (st : fstate) (chunk : list N) : fstate :=
+  match f_err st with
+  | Some _ => st
+  | None => let buf := f_buf st ++ chunk in frun (ffuel buf) (f_len st) buf (f_outs st)
+  end.
+
+Definition finit : fstate := mkF None [] [] None true.
+Definition ffeed_all (st : fstate) (chunks : list (list N)) : fstate := fold_left ffeed chunks st.
+End Framer.
+
+(** the instance used by DNSProtocol: the frame goes through Message.fromStr *)
+Definition dns_bad (frame : list N) : option pyexn :=
+  match dec_message frame with Done _ => None | Raise e => Some e | Fuel => Some AssertionError end.
